@@ -297,13 +297,15 @@ def evaluate(ref, ts, fs, df, dt, lo, hi, opts):
     return value, bound, dict(Tt=Tt, P=P, n=n, peak=peak)
 
 
-def compare(got, value, bound, R, key, lo=None, hi=None, **detail):
+def compare(got, value, bound, R, key, lo=None, hi=None, extra=None, **detail):
     """Pixel-wise three-valued comparison. Returns number of decidable pixels compared."""
     peak = float(np.max(np.abs(value))) if value.size else 0.0
     dec = bound <= max(1e-3 * peak, 1e-280)
     if peak == 0.0:
         dec = np.ones(value.shape, dtype=bool)
     err = np.abs(got - value)
+    if extra is not None:                # additive slack, e.g. absorption when the signal is observed as a data difference
+        bound = bound + extra
     bad = dec & ~(err <= bound)          # NaN in got => bad
     nd = int(dec.sum())
     R.count('pixels_compared', nd)
